@@ -124,7 +124,7 @@ def _arith(op, a, b):
     raise FortranSyntaxError(op)
 
 
-_FUNCS = {"exp": math.exp, "log": math.log, "log10": math.log10, "sqrt": math.sqrt, "abs": abs, "dexp": math.exp, "dlog": math.log, "dsqrt": math.sqrt}
+_FUNCS = {"exp": math.exp, "log": math.log, "log10": math.log10, "sqrt": math.sqrt, "abs": abs, "dexp": math.exp, "dlog": math.log, "dsqrt": math.sqrt, "dlog10": math.log10, "dabs": abs}
 
 
 class Evaluator:
